@@ -29,7 +29,10 @@
 //	g.Join(t)    string            a vector-to-vector binary operation whose two sides are biased to carry
 //	                               different label sets (aggregations by/without, equality matchers); 2 in 5 are
 //	                               "overlap joins": one side a nested aggregation/join with overlapping label lists
-//	                               (by-over-without, by-over-ignoring ...), joined on(L) with a side lacking L
+//	                               (by-over-without, by-over-ignoring ...), joined on(L) with a side lacking L, or
+//	                               "re-introduction joins": L removed (without/ignoring/by) and brought back
+//	                               (group_left/right(L), count_values "L", label_replace/label_join dst L) below an
+//	                               outer join on L with a side that carries L
 //	g.Top(t)     string            Vector, sometimes `X or Y` (when g.OrTop), sometimes Scalar (when g.ScalarTop)
 //
 // All generated text parses with the Prometheus parser (the generator is typed);
@@ -114,6 +117,7 @@ type Grammar struct {
 	Aggregations  bool // all operators
 	By, Without   bool
 	NameGrouping  bool // __name__ may appear in by/without/on/ignoring lists (rare)
+	RepeatLabels  bool // a label list (by/without/on/ignoring/group_left/group_right) may name a label twice (about 1 list in 8)
 	Funcs         bool // label-preserving instant functions
 	LabelRewrite  bool // label_replace / label_join
 	Absent        bool // absent / absent_over_time
@@ -157,6 +161,7 @@ func Full(u Universe, depth int) *Grammar {
 		U: u, MaxDepth: depth,
 		NegMatchers: true, RegexMatchers: true, EmptyValues: true, Nameless: true, Offsets: true, AtModifier: true,
 		RangeFuncs: true, Subqueries: true,
+		RepeatLabels: true,
 		Aggregations: true, By: true, Without: true, NameGrouping: true, Funcs: true, LabelRewrite: true, Absent: true, Constants: true,
 		Arith: true, Compare: true, Bool: true, SetOps: true, Or: true, OrTop: true, ScalarTop: true,
 		On: true, Ignoring: true, GroupLeft: true, GroupRight: true, Include: true,
@@ -172,7 +177,7 @@ func Strict(u Universe, depth int) *Grammar {
 	return &Grammar{
 		U: u, MaxDepth: depth,
 		NegMatchers: true, RegexMatchers: true, EmptyValues: true, Nameless: true,
-		RangeFuncs:   true,
+		RangeFuncs: true, RepeatLabels: true,
 		Aggregations: true, By: true, Without: true, Funcs: true,
 		Arith: true, Compare: true, Bool: true, SetOps: true, OrTop: true,
 		On: true, Ignoring: true, GroupLeft: true, GroupRight: true, Include: true,
